@@ -666,3 +666,55 @@ func cellHoldsOnlyOwnAllocs(decl *ssa.Function, chain []*ssa.Function, fv *ssa.F
 	}
 	return n > 0 && own
 }
+
+// ruleNoContainerWriteOnCompiled: a sync.Map / container/list / sync.Pool-less memo hung on a compiled object is shared
+// state too; its mutating methods are writes although no field is stored. Receiver = address of a field of a compiled
+// type that is not under construction.
+var containerMutators = map[string]bool{
+	"(*sync.Map).Store": true, "(*sync.Map).LoadOrStore": true, "(*sync.Map).LoadAndDelete": true, "(*sync.Map).Delete": true,
+	"(*sync.Map).Swap": true, "(*sync.Map).CompareAndSwap": true, "(*sync.Map).CompareAndDelete": true, "(*sync.Map).Clear": true,
+	"(*container/list.List).PushBack": true, "(*container/list.List).PushFront": true, "(*container/list.List).Remove": true, "(*container/list.List).Init": true,
+}
+
+func ruleNoContainerWriteOnCompiled(w *World, r *Report, rule string, reach map[*ssa.Function]bool, compiled map[*types.Named]bool, roots []*ssa.Function) int {
+	var fns []*ssa.Function
+	for fn := range reach {
+		if fn.Blocks != nil && w.inRepo(fn) && fn.Synthetic == "" {
+			fns = append(fns, fn)
+		}
+	}
+	sort.Slice(fns, func(i, j int) bool { return fns[i].String() < fns[j].String() })
+	n, bad := 0, 0
+	for _, fn := range fns {
+		instrs(fn, func(in ssa.Instruction) {
+			name := calleeFullName(in)
+			if !containerMutators[name] {
+				return
+			}
+			n++
+			c := in.(ssa.CallInstruction).Common()
+			if len(c.Args) == 0 {
+				return
+			}
+			recv := c.Args[0]
+			if u, ok := recv.(*ssa.UnOp); ok && u.Op == token.MUL { // pointer-typed field: *list.List
+				recv = u.X
+			}
+			fa, ok := recv.(*ssa.FieldAddr)
+			if !ok {
+				return
+			}
+			owner := ownerOfFieldAddr(fa)
+			if owner == nil || !compiled[owner.Origin()] || freshBase(fa.X, 0) {
+				return
+			}
+			bad++
+			f := fieldVarOfAddr(fa)
+			r.Fail(rule, fmt.Sprintf("%s calls %s on %s.%s", w.fname(origin(fn)), name, owner.Obj().Name(), f.Name()), in.Pos(), "a container hung on a compiled (shared) object is mutated on a run path: what one run leaves there is seen by every later and concurrent run of the same runnable ("+w.chainTo(fn, roots...)+")")
+		})
+	}
+	if bad == 0 {
+		r.OK(rule, fmt.Sprintf("%d container mutator calls on run paths, none on a field of a compiled type", n), token.NoPos, "per-run containers only")
+	}
+	return n
+}
